@@ -17,7 +17,12 @@
       coqc + vm_compute on the normalised spec and must agree with the real entries on (spec_path, kind, name).
  (iii) Accepted => executable: every base definition with inspect() == {} is composed and conducted under a random
       protocol-conformant history (provider.Session, lock step with the extracted conductor model); an exception
-      escaping a conformant call other than the documented refusals is a violation (unless a known finding fires).
+      escaping a conformant call other than the documented refusals is a violation, unless the trigger of a known
+      finding that lists C15 in known_findings.json fires (harness.findings.TRIGGERS) or the case is exactly one of
+      the confirmed candidates in KNOWN_CANDIDATES below (each with an exact predicate and a minimal reproducer in
+      its docstring); those are printed as KNOWN-FINDING lines with their counts.
+ A definition on which inspect() itself raises is a violation (found by this check and since fixed in /repo:
+ tasks.in_cycle raised KeyError on an undefined task behind a multi-referenced task).
 """
 import collections
 import collections.abc  # noqa: F401
@@ -54,6 +59,9 @@ THEOREMS = [
     {"name": "C15_undefined_total", "strength": "F",
      "text": "task names unique -> number of declared tasks <= fuel -> detect_undefined_tasks sp fuel returns Val: no "
              "KeyError, the fuel suffices (every task is dequeued at most once)"},
+    {"name": "C15_inspect_reports_undefined", "strength": "F",
+     "text": "inspect_semantics sp fuel = Val l (all detectors) -> l contains the entry of every reachable transition to "
+             "an undefined task, and the list inspect() shows (sorted by schema path, spec path) is a permutation of l"},
     {"name": "C15_reserved_reported", "strength": "F",
      "text": "e in detect_reserved_names sp <-> e = SE_reserved t with t declared and t an engine command"},
     {"name": "C15_no_start_reported", "strength": "F",
@@ -136,14 +144,19 @@ LATE = "zz_late"
 # through harness.findings.TRIGGERS, as in harness/props/common.py.)
 def _kc_rerun_inflight(v):
     """a rerun request naming an execution whose action is still in flight is accepted (not refused): the new
-    record has no status, and the report of the in-flight action then raises KeyError('status')."""
+    record has no status, and the report of the in-flight action then raises KeyError('status').
+    Reproducer: a: {action: core.noop, next: [{when: <% failed() %>, do: b}]}, b; boot, poll (a running),
+    request failed, rerun [(a, 0)], report a failed -> KeyError at conducting.update_task_state."""
     return (v.get("kind") == "internal-error" and (v.get("raised") or [None])[0] == "KeyError"
             and bool(v.get("rerun_of_active_execution")) and bool(v.get("record_without_status")))
 
 
 def _kc_items_after_reset(v):
     """a with-items task was re-staged (retry) while one of its items was still in flight: the staged entry has
-    no item table and the late item report raises KeyError('items')."""
+    no item table and the late item report raises KeyError('items').
+    Reproducer: w: {with: {items: <% list(1, 2) %>}, action: core.noop, retry: {count: 1, when: <% completed() %>}};
+    boot, poll (items 0, 1 running), item 0 abandoned, item 1 pausing, item 1 pending (task becomes retrying, staged
+    entry reset), item 1 succeeded -> KeyError('items')."""
     return (v.get("kind") == "internal-error" and (v.get("raised") or [None])[0] == "KeyError"
             and bool(v.get("item_event")) and v.get("staged_entry") is True and v.get("staged_items") is False)
 
@@ -152,7 +165,9 @@ def _kc_restart_unstaged(v):
     """an in-flight action whose record is already completed (it reported canceling/pausing and then paused or
     pending, which the task machine maps to a completed status) reports one of statuses.STARTING_STATUSES
     (requested .. running, pending): the conductor takes it for a new cycle iteration, finds no staged entry and
-    raises TypeError."""
+    raises TypeError.
+    Reproducer: a: {action: core.noop}; boot, poll (a running), a canceling, a paused (record canceled, workflow
+    canceled), a running -> TypeError ('NoneType' object is not subscriptable)."""
     return (v.get("kind") == "internal-error" and (v.get("raised") or [None])[0] == "TypeError"
             and v.get("pre_status") in ("succeeded", "failed", "timeout", "abandoned", "canceled")
             and v.get("event_status") in ("requested", "scheduled", "delayed", "running", "pending")
@@ -557,7 +572,7 @@ def expression_mutants(base, tier, nstruct, calls):
     inspect, a rotating selection (always at least one of each) when it is not -- a deterministic function of
     the definition (cost proxy: inspect_cost)."""
     positions = expression_positions(base)
-    budget_ms = 7000.0 if tier == "quick" else 60000.0
+    budget_ms = 7000.0 if tier == "quick" else 40000.0
     afford = budget_ms / (5.0 + 0.06 * calls) - nstruct
     per = (1, 1)
     for cand in ((len(BROKEN), len(FORMS)), (3, 4), (2, 3), (1, 2)):
@@ -867,10 +882,13 @@ def _base_case(args):
         nstruct = len(muts)
         emuts = expression_mutants(base, tier, nstruct, calls)
         lmuts = late_mutants(base, rng, 2 if tier == "quick" else 6)
-        # every structural and late mutant goes to the model as well; of the expression mutants a sample
-        sample = set(rng.sample(range(len(emuts)), min(len(emuts), 6 if tier == "quick" else 24)))
-        lsample = set(rng.sample(range(len(lmuts)), min(len(lmuts), 6 if tier == "quick" else 24)))
-        allm = [(m, f, True) for m, f in muts] + [(m, f, k in sample) for k, (m, f) in enumerate(emuts)] \
+        # the structural mutants go to the model as well (all in the quick tier, 36 per base in the thorough one);
+        # of the expression and late mutants a sample
+        ssample = set(range(nstruct)) if tier == "quick" else set(rng.sample(range(nstruct), min(nstruct, 36)))
+        sample = set(rng.sample(range(len(emuts)), min(len(emuts), 6 if tier == "quick" else 10)))
+        lsample = set(rng.sample(range(len(lmuts)), min(len(lmuts), 6 if tier == "quick" else 10)))
+        allm = [(m, f, k in ssample) for k, (m, f) in enumerate(muts)] \
+            + [(m, f, k in sample) for k, (m, f) in enumerate(emuts)] \
             + [(m, f, k in lsample) for k, (m, f) in enumerate(lmuts)]
         for m, f, want_coq in allm:
             vs, rep, coq = judge(m, f, want_coq)
@@ -972,6 +990,10 @@ def _exec_case(args):
         out["definition"], out["inputs"] = definition, inputs
         spec, rep = real_inspect(definition)
         out["accepted"] = not rep
+        try:
+            out["coq"] = coq_command(spec, rep)     # every generated definition is also put to the Coq detectors
+        except ValueError:
+            out["coq"] = None
         if rep:
             return out
         try:
@@ -1015,8 +1037,8 @@ def _exec_case(args):
 
 def run(ctx):
     tier, seed = ctx["tier"], ctx["seed"]
-    nbase = 32 if tier == "quick" else 280
-    nexec = 320 if tier == "quick" else 6000
+    nbase = 32 if tier == "quick" else 240
+    nexec = 320 if tier == "quick" else 4800
     base = (seed * 1000003 + zlib.crc32(b"C15")) % (2 ** 31)
     known_ids = [k["id"] for k in ctx["known"].get("findings", []) if "C15" in k.get("properties", [])]
     out = {"evaluations": 0, "violations": [], "known_lines": findings.reconfirm(ctx["known"], "C15"),
@@ -1049,6 +1071,9 @@ def run(ctx):
                 v["known"] = k
             out["violations"].append(v)
         cases.extend(r["coq"])
+    for r in eres:
+        if r.get("coq"):
+            cases.append((r["coq"], {"definition": r["definition"], "fault": None}))
     # (ii) the model against the real detectors
     mismatches = []
     if ctx["model_ok"] and os.path.exists(os.path.join(COQ, "model", "Inspect.vo")):
